@@ -11,7 +11,7 @@ from ..ast import *
 from ..fpc_context import FPCoreContext
 from ..function import Function
 from ..module import Module, ModuleEntry
-from ..number import Context
+from ..number import FP64, Context
 from ..transform import (
     ConstFold,
     ForBundling,
@@ -1267,7 +1267,6 @@ class _FPCoreCompileInstance(Visitor):
         if isinstance(stmt.target, NamedId):
             raise FPCoreCompileError('Context statements cannot bind to a variable', stmt.target)
 
-        body = self._visit_block(stmt.body, ctx)
         # extract a context value
         match stmt.ctx:
             case ForeignVal():
@@ -1286,8 +1285,17 @@ class _FPCoreCompileInstance(Visitor):
                 raise FPCoreCompileError('Expected `Context` or `FPCoreContext`', val)
 
         # transform properties
-        for k in props:
-            props[k] = fpc.Data(self._visit_data(props[k]))
+        props = { k: fpc.Data(self._visit_data(v)) for k, v in props.items() }
+
+        # FPCore scopes an annotation over an expression, and the statements
+        # after the block are part of that expression: restate the enclosing
+        # context around them, or they would run under this block's
+        if ctx is not None:
+            ctx = fpc.Ctx(dict(self._scope_props[-1]), ctx)
+
+        self._scope_props.append(props)
+        body = self._visit_block(stmt.body, ctx)
+        self._scope_props.pop()
         return fpc.Ctx(props, body)
 
     def _visit_assert(self, stmt: AssertStmt, ctx: None):
@@ -1329,6 +1337,16 @@ class _FPCoreCompileInstance(Visitor):
 
     def _visit_function(self, func: FuncDef, ctx: fpc.Expr | None):
         args = [self._compile_arg(arg) for arg in func.args]
+
+        # the context the body starts under: the function's own, else FPCore's default
+        match func.ctx:
+            case Context():
+                outer = FPCoreContext.from_context(func.ctx).props
+            case FPCoreContext():
+                outer = func.ctx.props
+            case _:
+                outer = FPCoreContext.from_context(FP64).props
+        self._scope_props = [{ k: fpc.Data(self._visit_data(v)) for k, v in outer.items() }]
         body = self._visit_block(func.body, ctx)
 
         # metadata
